@@ -69,6 +69,7 @@ def arc_sign(repo, res):
     env = {}  # local name -> Abs (element facts for lists)
     cols = {}  # matrix name -> Abs of the columns assigned
     loops = []
+    unknown = []  # constructs outside the vocabulary of the interpreter: a missing fact is then "not recognised", not "wrong"
 
     def ev(e, scope):
         if isinstance(e, ast.Name):
@@ -106,8 +107,9 @@ def arc_sign(repo, res):
                 ax = norm(kw.get("axis", ast.Constant(value=None)))
                 return Abs("nonneg", *(["norm"] if args[0].has("diff") and ax == "1" else []))
             if cn in ("np.hypot",) and len(e.args) == 2:
-                ok = all(isinstance(a, ast.Subscript) and ev(a.value, scope).has("diff") for a in e.args)
-                return Abs("nonneg", *(["norm"] if ok else []))
+                # hypot of two coordinate columns is the segment length only for planar vertices; centre lines may
+                # carry a z coordinate (Scenario.convert_to_2d exists for that reason), so this is not the norm
+                return Abs("nonneg")
             if cn in ("np.append", "np.concatenate", "np.hstack", "np.insert") and cn != "np.insert":
                 parts = e.args if cn == "np.append" else (e.args[0].elts if e.args and isinstance(e.args[0], (ast.Tuple, ast.List)) else [])
                 vals = [ev(p, scope) for p in parts]
@@ -136,7 +138,26 @@ def arc_sign(repo, res):
                 return Abs()
             if cn in ("np.amin", "np.min", "np.amax", "np.max", "np.mean") and args:
                 return Abs(*[f for f in ("nonneg", "first0", "seglen") if args[0].has(f)])
+            if cn in ("np.stack", "np.column_stack", "np.array", "np.asarray", "np.vstack", "np.hstack", "np.transpose") and args:
+                # a matrix whose columns (or rows) are the listed arrays: the facts are those common to the arrays
+                return Abs(*args[0].f)
+            if isinstance(e.func, ast.Attribute) and e.func.attr in ("astype", "copy", "transpose", "reshape"):
+                return ev(e.func.value, scope)
+            if cn in ("np.empty", "np.zeros", "len", "range", "float", "int"):
+                return Abs()
+            unknown.append(cn or norm(e.func))
             return Abs()
+        if isinstance(e, (ast.ListComp, ast.GeneratorExp)) and len(e.generators) == 1 and not e.generators[0].ifs:
+            g = e.generators[0]
+            sc = dict(scope)
+            it = g.iter
+            tv = g.target
+            if isinstance(it, ast.Call) and call_name(it) == "enumerate" and it.args and isinstance(tv, ast.Tuple):
+                it, tv = it.args[0], tv.elts[-1]
+            sc[norm(tv)] = Abs("polyline") if isinstance(it, ast.Name) and it.id == polylines else ev(it, scope)
+            return ev(e.elt, sc)
+        if isinstance(e, ast.Attribute) and e.attr == "T":
+            return ev(e.value, scope)
         if isinstance(e, ast.BinOp) and isinstance(e.op, ast.Pow) and isinstance(e.right, ast.Constant) and e.right.value == 2:
             b = ev(e.left, scope)
             return Abs("nonneg", *(["sqdiff"] if b.has("diff") else []))
@@ -196,6 +217,8 @@ def arc_sign(repo, res):
     run(fn.body, {})
     if ret is None:
         raise AnalysisError("_compute_polyline_cumsum_dist has no return value")
+    if unknown and not (ret.has("nondecreasing") and ret.has("starts0") and ret.has("arclen")):
+        raise AnalysisError("_compute_polyline_cumsum_dist uses %s: outside the vocabulary of the arc-length interpreter" % sorted(set(unknown)))
     res.check("ARC-SIGN", "cumulative distance never decreases (cumsum of non-negative entries)", ret.has("nondecreasing"), m, fn, "return value facts: %s" % sorted(ret.f), "the summed segment values are not provably non-negative: the arc length can decrease", qualname=qn)
     res.check("ARC-SIGN", "cumulative distance starts at 0 (first summed entry is 0)", ret.has("starts0"), m, fn, "return value facts: %s" % sorted(ret.f), "the first entry of the cumulative distance is not provably 0", qualname=qn)
     res.check("ARC-SIGN", "summed entries are the Euclidean lengths of consecutive vertex differences", ret.has("arclen"), m, fn, "return value facts: %s" % sorted(ret.f), "the entries summed are not recognised as |v[i+1]-v[i]| (sqrt of the row sums of squared np.diff): the distance does not end at the polyline length", qualname=qn)
@@ -416,19 +439,31 @@ def route(repo, res):
         # frontier / final / next lists
         init = {norm(s.targets[0]): s for s in fn.body if isinstance(s, ast.Assign) and len(s.targets) == 1}
         fr0 = init.get(frontier)
-        ok = fr0 is not None and isinstance(fr0.value, ast.ListComp) and isinstance(fr0.value.elt, ast.List) and len(fr0.value.elt.elts) == 1 and len(fr0.value.generators) == 1 and not fr0.value.generators[0].ifs and norm(fr0.value.elt.elts[0]) == norm(fr0.value.generators[0].target) and canon(fr0.value.generators[0].iter, None, None, []) == "self." + link
+        # two layouts of the frontier: parallel lists (paths, lengths) walked with zip, or one list of (path, length)
+        paired = fr0 is not None and isinstance(fr0.value, ast.ListComp) and isinstance(fr0.value.elt, ast.Tuple) and len(fr0.value.elt.elts) == 2
+        elt0 = (fr0.value.elt.elts[0] if paired else fr0.value.elt) if fr0 is not None and isinstance(fr0.value, ast.ListComp) else None
+        ok = elt0 is not None and isinstance(elt0, ast.List) and len(elt0.elts) == 1 and len(fr0.value.generators) == 1 and not fr0.value.generators[0].ifs and norm(elt0.elts[0]) == norm(fr0.value.generators[0].target) and canon(fr0.value.generators[0].iter, None, None, []) == "self." + link
         res.check("ROUTE-FLOW", "%s: first frontier is one path per direct %s" % (fname, link), ok, m, fr0 or fn, norm(fr0) if fr0 else "no initial frontier", "a direct %s is missing from (or something else is in) the first frontier" % link, qualname=qn)
         fors = [f for f in wl.body if isinstance(f, ast.For)]
-        ok = len(fors) == 1 and isinstance(fors[0].iter, ast.Call) and call_name(fors[0].iter) == "zip" and norm(fors[0].iter.args[0]) == frontier
-        res.check("ROUTE-FLOW", "%s: each round walks the whole frontier with its lengths" % fname, ok, m, fors[0] if fors else wl, "for .. in %s" % (norm(fors[0].iter) if fors else "?"), "paths of the frontier are not all expanded", qualname=qn)
-        if not ok:
-            continue
+        if paired:
+            shape_ok = len(fors) == 1 and norm(fors[0].iter) == frontier and isinstance(fors[0].target, ast.Tuple) and len(fors[0].target.elts) == 2
+        else:
+            shape_ok = len(fors) == 1 and isinstance(fors[0].iter, ast.Call) and call_name(fors[0].iter) == "zip" and len(fors[0].iter.args) == 2 and norm(fors[0].iter.args[0]) == frontier and isinstance(fors[0].target, ast.Tuple) and len(fors[0].target.elts) == 2
+        if not shape_ok:
+            # not one of the two frontier layouts this checker knows: refuse rather than guess
+            raise AnalysisError("%s: the frontier is walked by %s — outside the analysed vocabulary (zip(paths, lengths) or a list of (path, length) pairs)" % (fname, [norm(f.iter) for f in fors]))
+        res.ok("ROUTE-FLOW", "%s: each round walks the whole frontier with its lengths (%s)" % (fname, "pairs" if paired else "parallel lists"))
         outer = fors[0]
-        lens = norm(outer.iter.args[1])
+        lens = None if paired else norm(outer.iter.args[1])
         pv, lv = [norm(x) for x in outer.target.elts]
-        ln0 = init.get(lens)
-        ok = ln0 is not None and isinstance(ln0.value, ast.ListComp) and canon(ln0.value.generators[0].iter, None, None, []) == "self." + link and canon(ln0.value.elt, None, None, [net]) == "%s.find_lanelet_by_id(%s).distance[-1]" % (net, norm(ln0.value.generators[0].target))
-        res.check("ROUTE-FLOW", "%s: initial lengths are the lengths of the direct %ss, in the same order" % (fname, link), ok, m, ln0 or fn, norm(ln0) if ln0 else "?", "paths and accumulated lengths are misaligned from the start", qualname=qn)
+        if paired:
+            ln0 = fr0
+            len_elt, gen0 = fr0.value.elt.elts[1], fr0.value.generators[0]
+            ok = canon(len_elt, None, None, [net]) == "%s.find_lanelet_by_id(%s).distance[-1]" % (net, norm(gen0.target))
+        else:
+            ln0 = init.get(lens)
+            ok = ln0 is not None and isinstance(ln0.value, ast.ListComp) and canon(ln0.value.generators[0].iter, None, None, []) == "self." + link and canon(ln0.value.elt, None, None, [net]) == "%s.find_lanelet_by_id(%s).distance[-1]" % (net, norm(ln0.value.generators[0].target))
+        res.check("ROUTE-FLOW", "%s: initial lengths are the lengths of the direct %ss, in the same order" % (fname, link), ok, m, ln0 or fn, norm(ln0)[:100] if ln0 else "?", "paths and accumulated lengths are misaligned from the start", qualname=qn)
         # frontier replacement
         nxt = [s for s in wl.body if isinstance(s, ast.Assign) and norm(s.targets[0]) == frontier]
         ok = len(nxt) == 1 and wl.body.index(nxt[0]) > wl.body.index(outer) and isinstance(nxt[0].value, ast.Name)
@@ -437,11 +472,12 @@ def route(repo, res):
         if ok:
             fresh = [s for s in wl.body[: wl.body.index(outer)] if isinstance(s, ast.Assign) and norm(s.targets[0]) == pn and isinstance(s.value, (ast.List, ast.Call)) and norm(s.value) in ("[]", "list()")]
             ok = len(fresh) == 1
-            nl = [s for s in wl.body if isinstance(s, ast.Assign) and norm(s.targets[0]) == lens and isinstance(s.value, ast.Name)]
-            ok = ok and len(nl) == 1
-            ln = norm(nl[0].value) if nl else None
-            fresh2 = [s for s in wl.body[: wl.body.index(outer)] if isinstance(s, ast.Assign) and norm(s.targets[0]) == ln and norm(s.value) in ("[]", "list()")]
-            ok = ok and len(fresh2) == 1
+            if not paired:
+                nl = [s for s in wl.body if isinstance(s, ast.Assign) and norm(s.targets[0]) == lens and isinstance(s.value, ast.Name)]
+                ok = ok and len(nl) == 1
+                ln = norm(nl[0].value) if nl else None
+                fresh2 = [s for s in wl.body[: wl.body.index(outer)] if isinstance(s, ast.Assign) and norm(s.targets[0]) == ln and norm(s.value) in ("[]", "list()")]
+                ok = ok and len(fresh2) == 1
         res.check("ROUTE-FLOW", "%s: the frontier (and its lengths) is replaced by a list built from scratch each round" % fname, ok, m, wl, "frontier update %s" % [norm(s) for s in nxt], "paths of an earlier round stay in the frontier: the search need not terminate", qualname=qn)
         if not ok:
             continue
@@ -511,14 +547,19 @@ def route(repo, res):
         # alignment of path and length lists
         apps = [s.value for s in ast.walk(il) if isinstance(s, ast.Expr) and isinstance(s.value, ast.Call) and isinstance(s.value.func, ast.Attribute) and s.value.func.attr == "append"]
         pa = [a for a in apps if norm(a.func.value) == pn]
-        la = [a for a in apps if norm(a.func.value) == ln]
-        ok = len(pa) == len(la) == 1 and m.parent.get(m.parent.get(pa[0])) is m.parent.get(m.parent.get(la[0]))
+        if paired:
+            ok = len(pa) == 1 and len(pa[0].args) == 1 and isinstance(pa[0].args[0], ast.Tuple) and len(pa[0].args[0].elts) == 2
+            la = pa
+            lval = pa[0].args[0].elts[1] if ok else None
+        else:
+            la = [a for a in apps if norm(a.func.value) == ln]
+            ok = len(pa) == len(la) == 1 and m.parent.get(m.parent.get(pa[0])) is m.parent.get(m.parent.get(la[0]))
+            lval = la[0].args[0] if ok else None
         res.check("ROUTE-FLOW", "%s: next frontier and its lengths grow together" % fname, ok, m, il, "%d path appends, %d length appends" % (len(pa), len(la)), "paths and accumulated lengths get out of step", qualname=qn)
         if ok:
-            lval = la[0].args[0]
             t = canon(lval, rd, rd.stmt_of(la[0]), [net, rng])
             want = "%s + %s.find_lanelet_by_id(%s).distance[-1]" % (lv, net, xv)
-            res.check("ROUTE-FLOW", "%s: accumulated length grows by the candidate's length" % fname, t == want, m, la[0], "%s.append(%s)" % (ln, t), "the accumulated length is not the sum of the lengths on the chain", qualname=qn)
+            res.check("ROUTE-FLOW", "%s: accumulated length grows by the candidate's length" % fname, t == want, m, la[0], "next length %s" % t, "the accumulated length is not the sum of the lengths on the chain", qualname=qn)
             guards = dominating_guards(m, pa[0], stop=fn)
             pos = [canon(t_, rd, rd.stmt_of(pa[0]), [net, rng]) for t_, pol in guards if pol]
             ok = ("%s < %s" % (want, rng)) in pos or ("%s < %s" % (t, rng)) in pos
